@@ -1,4 +1,6 @@
 import CCV.Lemmas.Inline
+import CCV.Lemmas.InlineBatchMain
+import CCV.Lemmas.InlineBatchOneBit
 /-
   C07 — inlining preserves Call/Iterate semantics in every mode.
   Property theorems only (about the model functions of CCV/Model/Inline.lean that the driver
@@ -233,5 +235,115 @@ example :
     iterSmall .default 2 false 0 g 1 [1, 2, 3, 0, 5] = iterRef g 1 [1, 2, 3, 0, 5]
       ∧ (iterRef g 1 [1, 2, 3, 0, 5]).2 = [1, 2, 2, 3, 3] := by
   decide
+
+/-! ## batched states: the array layout of `exponential_inliner.rs`
+
+  `iterSmallB` / `iterOneBitB` (CCV/Model/InlineBatch.lean) run `inline_iterate_small_state` on flat
+  BIT arrays with the evaluator-shaped operations of `CCV.Ops`: `mask_to_value`, `one_hot_encode`
+  (Add, GetSlice `[..., k]`, Multiply, CreateVector + VectorToArray), `create_mapping_matrix`,
+  `create_mappings` (stacking, PermuteAxes, Get), the batched `matmul` combiner, the Reshape +
+  PermuteAxes of `initial_state_one_hot` and `masks_arr`, and `extract_state_from_mapping`.
+  A body is a function on flat state arrays; the contract of the strategy (`RowWise` / `PosWise`:
+  row `β` of the new state depends only on row `β` of the old state) is the hypothesis. -/
+
+open CCV.InlineBatch CCV.Shape
+
+/-- **batched small state = reference loop**: for every batch shape `B` (any rank, all dimensions
+    positive; rank 0 = the unbatched state `[K]`), every `K ≥ 1`, every body satisfying the row-wise
+    contract, both levels, every number of steps, every well-formed initial state: the array-level
+    inlining returns exactly the final state array and the outputs of the reference loop. -/
+theorem iterSmallB_ref {I O : Type} (B : List Nat) (K : Nat) (hB : pos B) (hK : 1 ≤ K)
+    (G : List Nat → I → List Nat × O) (g : List Nat → Nat → I → Nat)
+    (hG : RowWise B K (fun st x => (G st x).1) g) (level : Level) (emptyOut : Bool) (unit : O)
+    (hu : emptyOut = true → ∀ o : O, o = unit) (s : List Nat) (hs : WF (B ++ [K]) s) (xs : List I) :
+    iterSmallB level B K emptyOut unit G s xs = iterRef G s xs :=
+  iterSmallB_eq_ref B K hB hK G g hG level emptyOut unit hu s hs xs
+
+/-- **row `β` of the batched result = the single-row construction on row `β`**: the `K` bits in row
+    `β` of the final state array spell the state that `iterSmall` (the one-row model of the theorems
+    above, hence the reference iteration of the row's transition function `g β`) computes from row `β`
+    of the initial state. -/
+theorem iterSmallB_row {I O : Type} (B : List Nat) (K : Nat) (hB : pos B) (hK : 1 ≤ K)
+    (G : List Nat → I → List Nat × O) (g : List Nat → Nat → I → Nat)
+    (hG : RowWise B K (fun st x => (G st x).1) g) (level : Level) (emptyOut : Bool) (unit : O)
+    (hu : emptyOut = true → ∀ o : O, o = unit) (s : List Nat) (hs : WF (B ++ [K]) s) (xs : List I)
+    (β : List Nat) (hβ : validIdx β B) :
+    rowNat B K (iterSmallB level B K emptyOut unit G s xs).1 β
+      = (iterSmall level K emptyOut unit (fun st x => (g β st x, unit)) (rowNat B K s β) xs).1 := by
+  rw [iterSmallB_eq_ref B K hB hK G g hG level emptyOut unit hu s hs xs,
+    iterSmall_ref K (fun st x => (g β st x, unit)) (fun st x hst => g_closed hG hB hK β hβ st x hst)
+      level emptyOut unit hu _ (rowNat_lt B K s β) xs]
+  exact iterRef_row B K G g hG unit s hs xs β hβ
+
+/-- the pieces of the layout, as entry formulas (all batch ranks): block `β` of the mapping of step `i`
+    is the transition matrix of row `β` … -/
+theorem createMappings_block {I : Type} (B : List Nat) (K : Nat) (G : List Nat → I → List Nat)
+    (g : List Nat → Nat → I → Nat) (hG : RowWise B K G g) (hB : pos B) (hK : 1 ≤ K) (xs : List I)
+    (β : List Nat) (hβ : validIdx β B) :
+    (createMappings B K G xs).map (rowMat B (2 ^ K) β) = xs.map (Fm K (g β)) :=
+  createMappings_rowMat B K G g hG hB hK xs β hβ
+
+/-- … the batched BIT `matmul` multiplies the blocks of every row … -/
+theorem combine_block (B : List Nat) (K : Nat) (β : List Nat) (hβ : validIdx β B) (a b : List Nat) :
+    rowMat B (2 ^ K) β (combine B K a b) = matMul (2 ^ K) (rowMat B (2 ^ K) β a) (rowMat B (2 ^ K) β b) :=
+  combine_rowMat B K β hβ a b
+
+/-- … and row `β` of the extracted state is `extractS` of the row's initial state and block. -/
+theorem extractState_row (B : List Nat) (K : Nat) (hB : pos B) (hK : 1 ≤ K) (s : List Nat)
+    (hs : WF (B ++ [K]) s) (β : List Nat) (hβ : validIdx β B) (p : List Nat) :
+    rowNat B K (extractState B K (permuteInitial B K (oneHotEncode B K s)) (masksArr B K) p) β
+      = extractS K (rowNat B K s β) (rowMat B (2 ^ K) β p) :=
+  rowNat_extractState B K hB hK s hs β hβ p
+
+theorem pos_2_3 : pos [2, 3] := by intro d hd; simp at hd; omega
+
+/-- non-vacuity of the contract: a body that keeps the state when the input is `true` and resets every
+    row to the constant 3 otherwise (neither injective nor input-independent), batch shape `[2, 3]` -/
+example : RowWise [2, 3] 2 (fun S (x : Bool) => if x then S else maskToValue ([2, 3] ++ [2]) 2 3)
+    (fun _ st x => if x then st else 3) :=
+  ⟨fun S x h => by cases x <;> simp only [Bool.false_eq_true, if_false, if_true]
+                   · exact maskToValue_WF [2, 3] 2 3 pos_2_3 (by decide)
+                   · exact h,
+   fun S x β h hβ => by
+     cases x <;> simp only [Bool.false_eq_true, if_false, if_true]
+     exact rowNat_mask [2, 3] 2 3 pos_2_3 (by decide) (by decide) β hβ⟩
+
+/-- non-vacuity, concrete run (batch shape `[2]`, `K = 2`, two steps, row `r` adds `x + r` mod 4 or
+    is reset to 3 when `x = 0`): the array-level model and the reference loop agree, rows differ -/
+example :
+    let dec : List Nat → List Nat := fun s => [s.getD 0 0 + 2 * s.getD 1 0, s.getD 2 0 + 2 * s.getD 3 0]
+    let enc : List Nat → List Nat := fun r => r.flatMap fun v => [v % 2, v / 2 % 2]
+    let G : List Nat → Nat → List Nat × List Nat := fun s x =>
+      (enc ((dec s).zipIdx.map fun (v, r) => if x = 0 then 3 else (v + x + r) % 4), dec s)
+    iterSmallB .default [2] 2 false [] G [1, 0, 0, 1] [1, 2] = iterRef G [1, 0, 0, 1] [1, 2]
+      ∧ (iterRef G [1, 0, 0, 1] [1, 2]).1 = [0, 0, 1, 1] := by
+  decide +kernel
+
+/-- **batched one-bit state = reference loop**: state dimensions `sh` of any rank (`[1]` for a scalar),
+    every body whose new entry `q` depends only on the old entry `q`, both levels, every length. -/
+theorem iterOneBitB_ref {I O : Type} (sh : List Nat) (hpos : pos sh) (hne : sh ≠ [])
+    (G : List Nat → I → List Nat × O) (g : Nat → Bool → I → Bool)
+    (hG : PosWise sh (fun st x => (G st x).1) g) (level : Level) (emptyOut : Bool) (unit : O)
+    (hu : emptyOut = true → ∀ o : O, o = unit) (s : List Nat) (hs : WF sh s) (xs : List I) :
+    iterOneBitB level sh emptyOut unit G s xs = iterRef G s xs :=
+  iterOneBitB_eq_ref sh hpos hne G g hG level emptyOut unit hu s hs xs
+
+/-- entry `q` of the batched one-bit result = the single-bit construction (`iterOneBit`) on entry `q` -/
+theorem iterOneBitB_row {I O : Type} (sh : List Nat) (hpos : pos sh) (hne : sh ≠ [])
+    (G : List Nat → I → List Nat × O) (g : Nat → Bool → I → Bool)
+    (hG : PosWise sh (fun st x => (G st x).1) g) (level : Level) (emptyOut : Bool) (unit : O)
+    (hu : emptyOut = true → ∀ o : O, o = unit) (s : List Nat) (hs : WF sh s) (xs : List I)
+    (q : Nat) (hq : q < prod sh) :
+    (iterOneBitB level sh emptyOut unit G s xs).1.getD q 0
+      = ((iterOneBit level emptyOut unit (fun b x => (g q b x, unit)) (s.getD q 0 == 1) xs).1).toNat :=
+  iterOneBitB_entry sh hpos hne G g hG level emptyOut unit hu s hs xs q hq
+
+/-- non-vacuity: elementwise `s' = s·x ⊕ [position is odd]`, shape `[2, 2]`, five steps -/
+example :
+    let G : List Nat → Nat → List Nat × List Nat := fun s x =>
+      (s.zipIdx.map fun (v, r) => (v * x + r) % 2, s)
+    iterOneBitB .default [2, 2] false [] G [1, 0, 1, 1] [1, 1, 0, 1, 1] = iterRef G [1, 0, 1, 1] [1, 1, 0, 1, 1]
+      ∧ (iterRef G [1, 0, 1, 1] [1, 1, 0, 1, 1]).1 = [0, 1, 0, 1] := by
+  decide +kernel
 
 end CCV.C07
